@@ -549,6 +549,10 @@ def consumed_prefix(facts, body_path, sp, what):
         if len(cands) != 1:
             return None
         e, target = cands[0], None
+    if e['k'] != 'Binary':
+        o = B.origin(e)         # a local that received the difference through a tuple / match arm
+        if o[0][0] == 'expr' and o[0][1] == 'Binary' and not o[1] and B.by_id.get(o[0][2]) is not None:
+            e = B.by_id[o[0][2]]
     if e['k'] != 'Binary' or e['op'] != 'Sub':
         return None
     def len_of(x):
